@@ -372,7 +372,8 @@ var (
 	}
 	pScopes = []string{
 		"registry.acme-rockets.io/software/net-monitor", "localhost:5000/a", "a/b", "example.com/a/b_c", "10.0.0.1:80/x",
-		"reg.io/a__b", "reg.io/a-b", "reg.io/a.b", "reg.io/a---b", "Reg-1.IO/x/y/z", "r/0", "registry.wabbit-networks.io/software/unsigned/productA",
+		"reg.io/a__b", "reg.io/a-b", "reg.io/a.b", "reg.io/a---b", "Reg-1.IO/x/y/z", "r/0", "wabbit-networks.io/sw/unsigned",
+		"reg.io/net", "reg.io/web", "ghcr.io/o/r", "local/oci",
 	}
 	pBadScopes = []string{
 		"", "noslash", "/repo", "domain/", "domain.com/Repo", "dom_ain/repo", "reg.io/a:tag", "reg.io/a@sha256:x",
